@@ -85,9 +85,8 @@ PROPS = {
         "quick": {"shards": 16, "timeout": 1500},
         "thorough": {"shards": 16, "timeout": 7200},
         "rule": "(1) enumeration: for chosen (basis position i, window k) every digit v in 1..2^w-1 (w=16 for i<5, else 8) x "
-                "carry-in {0,1} as the single-coefficient vector v*2^(wk) (+ (2^w-1)*2^(w(k-1))) of length i+1, scalar < r; quick = "
-                "3 windows of each 16-bit point (top, a last-of-limb, one seed-selected) + all windows of 48 seed-selected 8-bit "
-                "points; thorough = all 5*16 + 251*32 (position, window) units (exhaustive sub-domain). Non-trivial (counted, "
+                "carry-in {0,1} as the single-coefficient vector v*2^(wk) (+ (2^w-1)*2^(w(k-1))) of length i+1, scalar < r; both tiers "
+                "enumerate all 5*16 + 251*32 (position, window) units (exhaustive sub-domain, ~14.6 M checks). Non-trivial (counted, "
                 "distinct by construction) = digit >= half range or a carry arrives. (2) rapid vectors: length "
                 "{0..8,16,17,64,127..129,200,255,256,uniform} x {sparse, dense, dense with recipe scalars}; scalar recipes "
                 "{0,1,small,r-1..r-4,2^k,2^k-1,limb patterns,8/16-bit window recipes with carry chains,uniform}; non-trivial = "
@@ -101,7 +100,8 @@ PROPS = {
     "C06": {
         "test": "TestC06", "variant": "elem",
         "quick": {"shards": 16, "timeout": 1500},
-        "thorough": {"shards": 16, "timeout": 7200},
+        "thorough": {"shards": 16, "timeout": 7200,
+                     "fuzz": [{"target": "FuzzC06Compressed", "seconds": 60}, {"target": "FuzzC06Uncompressed", "seconds": 60}]},
         "rule": "byte strings for SetBytes, SetBytesUncompressed(untrusted) and common.ReadPoint (whole / chunked / data+EOF "
                 "readers): x half from {valid encoding of k*G or CRS point, its negation, x+p alias, on-curve x outside the "
                 "subgroup, off-curve x, constants 0,1,2,p-1,p,p+1,2p,2^255,2^256-1,r,(p+-1)/2, uniform, valid with one bit "
@@ -201,8 +201,7 @@ PROPS = {
         "quick": {"shards": 16, "timeout": 1500,
                   "matrix": [{"cpus": c} for c in (16, 1, 2, 3, 5, 16, 7, 1, 16, 2, 3, 16, 5, 11, 13, 16)]},
         "thorough": {"shards": 32, "timeout": 10800, "matrix": [{"cpus": c} for c in range(1, 17)]},
-        "rule": "exhaustive grid (n, m): quick n in 0..512 x m in 1..64 plus a seed-selected band of 48 values of n with all m in "
-                "1..300; thorough the full 0..2048 x 1..300; plus the default worker limit for every n under NumCPU in 1..16 "
+        "rule": "exhaustive grid (n, m): the full 0..2048 x 1..300 in both tiers; plus the default worker limit for every n under NumCPU in 1..16 "
                 "(taskset); plus rapid cases with per-invocation delays (Gosched bursts / short sleeps) inside the work "
                 "function. Non-trivial (counted, distinct by construction for the grid) = n > m and n mod m != 0.",
         "oracle": "validity predicate over the recorded multiset of (start,end): sorted ranges contiguous and disjoint, union "
@@ -280,7 +279,8 @@ PROPS = {
     "C10": {
         "test": "TestC10", "variant": "elem",
         "quick": {"shards": 16, "timeout": 1500},
-        "thorough": {"shards": 16, "timeout": 7200},
+        "thorough": {"shards": 16, "timeout": 7200,
+                     "fuzz": [{"target": "FuzzC10MultiProofRead", "seconds": 60}, {"target": "FuzzC10IPAProofRead", "seconds": 60}]},
         "rule": "byte strings for MultiProof.Read (576) and IPAProof.Read (544): 17/16 valid encodings + canonical scalar, or uniform "
                 "bytes; one field replaced by {off-curve x, non-subgroup x, x+p alias, p, p-1, 2^256-1, identity, negated valid, one "
                 "flipped bit | scalar r-1, r, r+1, 2r, r+2^119, p, 2^256-1, 0}; truncation at every field boundary +-1 or anywhere; "
@@ -337,7 +337,7 @@ PROPS = {
     "C16": {
         "test": "TestC16", "variant": "elem",
         "quick": {"shards": 16, "timeout": 900},
-        "thorough": {"shards": 16, "timeout": 3600},
+        "thorough": {"shards": 16, "timeout": 3600, "fuzz": [{"target": "FuzzC16Decode", "seconds": 60}]},
         "rule": "byte strings of length 0..64 built by class (boundary values 0,1,r-1,r,r+1,2r,2^253,2^256-1,p... +-3 "
                 "in both endiannesses with zero padding/truncation, limb patterns relative to the modulus limbs {q_i-1,q_i,q_i+1,0,2^64-1,"
                 "random} (all 5^4 deterministic combinations swept), uniform, sparse, encodings of uniform scalars) plus a "
